@@ -396,8 +396,74 @@ def run_cadence(case, ctx):
         os.unlink(path)
 
 
+long_case = st.fixed_dictionaries({
+    "system": S.hierarchical_system(nmin=2, nmax=2),
+    "cfg": S.integrator_config(["whfast", "leapfrog", "saba"]),
+    "nsnap": st.sampled_from([1030, 1100, 2060]),     # the index grows in blocks of 1024 entries
+    "manual_extra": st.integers(0, 3),
+})
+
+
+def run_long(case, ctx):
+    """Archives with more snapshots than one index block (1024): count, every time, sampled contents."""
+    import warnings
+    import rebound
+    from .. import rb
+    from ..oracles import sa_format
+    warnings.simplefilter("ignore")
+    sysd = case["system"]
+    sim = rb.new_sim({"G": sysd["G"], "particles": sysd["particles"]})
+    apply_cfg(sim, case["cfg"])
+    for fam in ("ri_whfast", "ri_saba"):
+        getattr(sim, fam).safe_mode = 1
+        getattr(sim, fam).keep_unsynchronized = 0
+    sim.dt = 0.05 * sysd["P_min"]
+    path = os.path.join(ctx.scratch, "long.bin")
+    if os.path.exists(path):
+        os.unlink(path)
+    n = case["nsnap"]
+    keep = {0, 1, 1022, 1023, 1024, 1025, 2047, 2048, 2049, n - 2, n - 1}
+    times = []
+    maps = {}
+    for k in range(n):
+        if k in keep:
+            maps[k] = rb.smap(sim)
+        times.append(sim.t)
+        sim.save_to_file(path)
+        sim.steps(1)
+    for j in range(case["manual_extra"]):
+        k = n + j
+        maps[k] = rb.smap(sim)
+        times.append(sim.t)
+        sim.save_to_file(path)
+        sim.steps(2)
+    sa = rebound.Simulationarchive(path)
+    if sa.nblobs != len(times):
+        raise Violation("archive reports %d snapshots, %d were written" % (sa.nblobs, len(times)),
+                        nblobs=sa.nblobs, written=len(times))
+    for k, t in enumerate(times):
+        if rb.dbits(sa.t[k]) != rb.dbits(t):
+            raise Violation("snapshot %d: archive time %r != time when written %r" % (k, sa.t[k], t))
+    names = rb.field_names()
+    for k, m in sorted(maps.items()):
+        mk = rb.smap(sa[k])
+        if mk != m:
+            raise Violation("snapshot %d of %d differs from the live state when it was written" % (k, len(times)),
+                            diff=sa_format.map_diff(m, mk, names)[:6])
+    last = rebound.Simulation(path)
+    if rb.dbits(last.t) != rb.dbits(times[-1]):
+        raise Violation("Simulation(filename) returns t=%r, the last snapshot was written at t=%r" % (last.t, times[-1]))
+    ctx.cls("nsnap>1024")
+    if n > 2048:
+        ctx.cls("nsnap>2048")
+    ctx.nontrivial()
+    del sa
+    os.unlink(path)
+
+
 def subs(tier):
     return [
         Sub("history", run_history, strategy=history_case, quick=3200, thorough=60000, shards_quick=8, shards_thorough=16),
+        Sub("long_archive", run_long, strategy=long_case, quick=4, thorough=48, shards_quick=4, shards_thorough=16),
         Sub("cadence", run_cadence, strategy=cadence_case, quick=1200, thorough=24000, shards_quick=8, shards_thorough=16),
     ]
